@@ -499,6 +499,9 @@ func TestCipherReader(t *testing.T) {
 				t.Fatalf("CipherReader delivered %d bytes but consumed %d from the source", len(got), src.Pos)
 			}
 			key2 := gen.Key(t, "key2")
+			if rapid.IntRange(0, 3).Draw(t, "sameKeyAfterReset") == 0 {
+				key2 = key // Reset with the identical key must still restart at offset 0
+			}
 			n2 := drawLen(t, "len2")
 			data2 := pattern(n2, drawSeed(t)^0x9e3779b9)
 			src2 := tx.NewSrc(data2, gen.Chunks(t, "chunks2"))
@@ -702,6 +705,9 @@ func TestCipherWriterShortWrite(t *testing.T) {
 			}
 			// new destination, new key: the rest of the data from offset 0
 			key2 := gen.Key(t, "key2")
+			if rapid.IntRange(0, 3).Draw(t, "sameKeyAfterReset") == 0 {
+				key2 = key // Reset with the identical key must still restart at offset 0
+			}
 			rec2 := tx.NewRec()
 			cw.Reset(rec2, key2)
 			if k, err := cw.Write(caller[written:]); err != nil || k != n-written {
